@@ -25,9 +25,14 @@
 (*                                                                         *)
 (* FixBatch / FixBuffer select the *repaired* transitions:                 *)
 (*   FixBatch : batch(n) emits consecutive chunks of exactly n items plus  *)
-(*              one final non-empty shorter chunk;                         *)
-(*   FixBuffer: the column lists are created per _create_record call.      *)
-(* FALSE/FALSE is the code as found (DESIGN section 9, defects 3 and 9).   *)
+(*              one final non-empty shorter chunk (rxsci commit bbd7bc7);  *)
+(*              FALSE is batch() as it was before that commit;             *)
+(*   FixBuffer: the column lists are created per _create_record call       *)
+(*              (proposed_fixes/C20-parquet-fresh-column-buffers.diff);    *)
+(*              FALSE is create_record as found.                           *)
+(* FALSE/FALSE is the code the design was read from (DESIGN section 9,     *)
+(* defects 3 and 9).  The check finds out from recorded executions which   *)
+(* variant the tree under test follows.                                    *)
 (***************************************************************************)
 EXTENDS Naturals, Sequences, TLC
 
@@ -61,7 +66,7 @@ NoAcc == [lst |-> 0, flag |-> FALSE]
 SeedHeap(h) == Append(h, <<>>)
 SeedAcc(h)  == [lst |-> Len(h) + 1, flag |-> FALSE]
 
-(* _batch(acc, i) as found:
+(* _batch(acc, i) before bbd7bc7:
        if acc[1] is True: return ([i], False)
        b = acc[0]; b.append(i)
        return (b, True) if len(b) == batch_size else (b, False)            *)
@@ -71,7 +76,7 @@ BatchHeapOrig(h, a, i) ==
 BatchAccOrig(h, a, i) ==
     IF a.flag THEN [lst |-> Len(h) + 1, flag |-> FALSE]
     ELSE [lst |-> a.lst, flag |-> (Len(h[a.lst]) + 1 = b)]
-(* _terminate(acc) as found: return (acc[0], True) *)
+(* _terminate(acc) before bbd7bc7: return (acc[0], True) *)
 TermAccOrig(h, a) == [lst |-> a.lst, flag |-> TRUE]
 
 (* repaired:
